@@ -41,7 +41,11 @@ Fixpoint LOOPG (n : nat) (ls : lexstate) (s : list ch) (ln : Z) (harmony : bool)
            else if ((c =? 113) || (c =? 118)) && negb (prefixb (zs "Add") r || ((c =? 113) && prefixb (zs "2Add") r)) then
              (if c =? 113 then push (read_qlen tb r ln) else push (read_velocity tb r ln))
            else if c =? 116 then push (read_timing tb r ln)
-           else if (c =? 112) || (c =? 121) then Unsupported U_CHAR
+           else if c =? 112 then push (read_pitch_bend 0 tb r ln)
+           else if c =? 121 then
+             do ra <- read_cc ls false r ln;
+             let '(ot, s2, ln2, ls') := ra in
+             LOOPG n' ls' s2 ln2 harmony (match ot with Some t => acc ++ [t] | None => acc end)
            else if is_upper c || (c =? 95) || (c =? 113) || (c =? 118) then
              (* cur.prev(): the command is re-read from the ORIGINAL character (vAdd / qAdd / q2Add arrive here too) *)
              (* cur.prev(); cur.replace_char(ch): the command is re-read with the converted character *)
@@ -64,7 +68,7 @@ Fixpoint LOOPG (n : nat) (ls : lexstate) (s : list ch) (ln : Z) (harmony : bool)
                      do cv <- check_variables ls word s1 ln;
                      let '(ot, s2, ln2, ls') := cv in
                      LOOPG n' ls' s2 ln2 harmony (match ot with Some t => acc ++ [t] | None => acc end)
-                 | Some (ttype, (argt, _)) =>
+                 | Some (ttype, (argt, (tag1, tag2))) =>
                    if ((argt =? 73) || (argt =? 65)) &&
                       (list_eqb ttype (zs "Time") || list_eqb ttype (zs "PlayFrom") || list_eqb ttype (zs "TimeSignature")
                        || list_eqb ttype (zs "TieMode")) then
@@ -127,7 +131,10 @@ Fixpoint LOOPG (n : nat) (ls : lexstate) (s : list ch) (ln : Z) (harmony : bool)
                      do sub <- sublex ls block ln2;
                      let '(toks, ls') := sub in
                      LOOPG n' ls' s4 ln4 harmony (acc ++ [TDiv (div_count toks) len toks])
-                   else Unsupported U_UPPER
+                   else
+                     do ra <- read_ext_command ls ttype argt tag1 tag2 s1 ln;
+                     let '(ot, s2, ln2, ls') := ra in
+                     LOOPG n' ls' s2 ln2 harmony (match ot with Some t => acc ++ [t] | None => acc end)
                  end
              else Unsupported U_CHAR   (* a full-width capital: prev() re-reads the unconverted character *)
            else if c =? 35 then
